@@ -51,7 +51,7 @@ EXPECTED_PROBES = ["tzlocal_judged", "tzlocal_stale_not_judged",
                    "no_dst_fixed", "glibc_consulted"]
 
 CLASSES = {
-    "config": dict(quick=8000, thorough=250000, timeout=120),
+    "config": dict(quick=25000, thorough=600000, timeout=120),
 }
 
 
